@@ -5,7 +5,9 @@ VERIF = os.path.dirname(os.path.dirname(os.path.abspath(__file__)))
 LEAN = os.path.join(VERIF, "lean")
 HARNESS = os.path.join(VERIF, "harness")
 WORK = os.path.join(VERIF, "work")
-REPO = "/repo"
+# the registered commands always check /repo; VERIF_REPO lets the seeded-change runner point the same
+# machinery at a scratch worktree while /repo is in use
+REPO = os.environ.get("VERIF_REPO", "/repo")
 DRIVER = os.path.join(LEAN, ".lake", "build", "bin", "driver")
 HBIN = os.path.join(HARNESS, "bin", "ipamharness")
 FACTGEN = os.path.join(HARNESS, "bin", "factgen")
@@ -53,11 +55,24 @@ def tree_hash(paths, exts):
     return h.hexdigest()
 
 
+def modfile_args():
+    """`-modfile` arguments redirecting the harness' replace directive when VERIF_REPO is set"""
+    if REPO == "/repo":
+        return []
+    os.makedirs(WORK, exist_ok=True)
+    alt = os.path.join(WORK, "alt.mod")
+    src = open(os.path.join(HARNESS, "go.mod")).read().replace("=> /repo", "=> " + REPO)
+    open(alt, "w").write(src)
+    with open(os.path.join(HARNESS, "go.sum"), "rb") as f, open(os.path.join(WORK, "alt.sum"), "wb") as g:
+        g.write(f.read())
+    return ["-modfile=" + alt]
+
+
 def build_go():
     """rebuild harness (and factgen) from /repo's working tree, tag verif"""
     os.makedirs(os.path.join(HARNESS, "bin"), exist_ok=True)
     # go.sum / go.mod of the harness follow the repository's
-    r = run(["go", "build", "-tags", "verif", "-o", HBIN, "./cmd/ipamharness"], cwd=HARNESS, env=GOENV, timeout=900)
+    r = run(["go", "build"] + modfile_args() + ["-tags", "verif", "-o", HBIN, "./cmd/ipamharness"], cwd=HARNESS, env=GOENV, timeout=900)
     if r.returncode != 0:
         return False, r.stdout
     if os.path.isdir(os.path.join(HARNESS, "cmd", "factgen")):
